@@ -157,6 +157,7 @@ func runC11(c *Ctx) {
 	rulePooledMemory(c, p, "C11.M", "agent/websockets")
 	c.Rule("C11.S", "shim session IDs are unique and the client is told the key its connection is stored under", 2)
 	ruleShimSessionIDs(c, p, "C11.S")
+	ruleCounterOnlyIncrements(c, p, "C11.S")
 
 	// ---- C11.O
 	se := resolveShimEndpoints(c, p, "C11.O")
@@ -245,7 +246,7 @@ func runC11(c *Ctx) {
 		c.Check("C11.O", "SendClientMessage:single-send-of-built-message", p, send.Pos(), ok, "one send site; the value sent is the message built from the argument (or its injected replacement)", fmt.Sprintf("SendClientMessage has %d send sites on clientMessages or sends something other than the message it built", n))
 	}
 	if nc := p.Func("agent/websockets.NewConnection"); nc != nil {
-		for _, g := range nc.AnonFuncs {
+		for _, g := range DirectClosures(nc) {
 			if wm := Calls(g, "(*github.com/gorilla/websocket.Conn).WriteMessage"); len(wm) > 0 {
 				ok := len(wm) == 1
 				if ok {
